@@ -15,12 +15,12 @@ PID = "C15"
 ANCHORS = ["pyoma2.algorithms.base:BaseAlgorithm._pre_run", "pyoma2.algorithms.base:BaseAlgorithm._set_data", "pyoma2.algorithms.base:BaseAlgorithm._set_result",
            "pyoma2.setup.base:BaseSetup.add_algorithms", "pyoma2.setup.base:BaseSetup.run_by_name", "pyoma2.setup.base:BaseSetup.run_all", "pyoma2.setup.base:BaseSetup.mpe",
            "pyoma2.setup.multi:MultiSetup_PoSER._init_setups", "pyoma2.functions.gen:save_to_file", "pyoma2.functions.gen:load_from_file"]
-REQUIRED_MONITORS = ["step@history(enumerated)", "step@history(sampled, six classes)", "step@history(PreGER)", "pickle-round-trip", "PoSER-constructor-outcome"]
+REQUIRED_MONITORS = ["pickle-round-trip(several files)", "step@history(algorithm replaced under its name)", "step@history(enumerated)", "step@history(sampled, six classes)", "step@history(PreGER)", "pickle-round-trip", "PoSER-constructor-outcome"]
 ALL_STATES = ["run without parameters rejected", "mpe before run rejected", "run of an algorithm never added rejected", "re-run after mpe clears extraction", "run repeated",
               "run_all with a parameterless algorithm", "algorithm re-added", "PoSER accepted", "PoSER rejected: <2 setups", "PoSER rejected: empty setup",
               "PoSER rejected: types differ", "PoSER rejected: order differs", "PoSER rejected: subclass instead of class", "PoSER rejected: names length",
               "PoSER rejected: not run", "PoSER rejected: run but no mpe"]
-REQUIRED_STATES = [s for s in ALL_STATES]
+REQUIRED_STATES = ["another algorithm object added under an existing name", "several setups saved under similar file names"] + [s for s in ALL_STATES]
 RULE = ("histories over {add(a), run_by_name(a), mpe(a), run_all} for pools of three algorithm instances (two pools covering FDD, EFDD, FSDD, SSIcov, SSIdat, "
         "pLSCF; one pool member may lack run parameters): ALL sequences up to length 3 (quick) / 4 (thorough), sampled length-5 histories over all six "
         "classes and over the PreGER variants; after every call the outcome (exception or not), the digest of every algorithm's result, and checksums of "
@@ -69,6 +69,8 @@ def _cases(tier, seed):
     out += [{"cls": "sampled_six", "k": k} for k in range(ns)]
     out += [{"cls": "sampled_preger", "k": k} for k in range(nm)]
     out += [{"cls": "poser", "part": p, "k": p} for p in range(16)]
+    out += [{"cls": "replaced", "ms": bool(m_), "k": 7000 + 2 * k_ + m_} for k_ in range(6 if tier == "quick" else 40) for m_ in (0, 1)]
+    out += [{"cls": "file_names", "k": 7500 + k_} for k_ in range(2 if tier == "quick" else 10)]
     return out
 
 
@@ -93,7 +95,12 @@ def make_alg(kind, name):
     kind = kind.split(":")[-1]
     if "@" in kind:
         base, var = kind.split("@")
-        kwv = {"cor": dict(nxseg=256, method_SD="cor"), "256": dict(nxseg=256, pov=0.25), "cor512": dict(nxseg=512, method_SD="cor")}[var]
+        if var == "alt":  # the same class with other parameters (what re-executing a notebook cell with new settings creates)
+            kwv = {"FDD": dict(nxseg=512), "EFDD": dict(nxseg=256), "FSDD": dict(nxseg=256), "SSIcov": dict(br=8, ordmax=8), "SSIdat": dict(br=8, ordmax=8),
+                   "pLSCF": dict(ordmax=5, nxseg=256), "FDD_MS": dict(nxseg=512), "EFDD_MS": dict(nxseg=256), "SSIcov_MS": dict(br=8, ordmax=8),
+                   "SSIdat_MS": dict(br=8, ordmax=8), "pLSCF_MS": dict(ordmax=5, nxseg=256)}[base]
+        else:
+            kwv = {"cor": dict(nxseg=256, method_SD="cor"), "256": dict(nxseg=256, pov=0.25), "cor512": dict(nxseg=512, method_SD="cor")}[var]
         return getattr(A_, base)(name=name, **kwv)
     cls = getattr(A_, kind)
     if noparams:
@@ -160,7 +167,7 @@ def tolerant_equal(a, b, tol=1e-9):
 
 class History:
     def __init__(self, ctx, pool, ms, tag):
-        self.ctx, self.pool, self.ms, self.tag = ctx, pool, ms, tag
+        self.ctx, self.pool, self.ms, self.tag = ctx, list(pool), ms, tag
         self.setup, self.fn = make_setup(ms)
         self.algs = [make_alg(k, f"a{i}") for i, k in enumerate(pool)]
         self.state = [dict(added=False, ran=False, mpe=False) for _ in pool]
@@ -186,8 +193,15 @@ class History:
         ctx.ev(self.tag)
         st = self.state
         exc = None
+        if op == "replace":
+            # another algorithm object (same class, other parameters) added under the name of one that is already there: the setup runs what
+            # was added last; the object added now is the one whose parameters decide the result, and it has not run yet
+            self.pool[i] = self.pool[i].split("@")[0] + "@alt"
+            self.algs[i] = make_alg(self.pool[i], f"a{i}")
+            self.hist[-1] = f"add(new {self.pool[i]} under the same name)"
+            ctx.state("another algorithm object added under an existing name")
         try:
-            if op == "add":
+            if op in ("add", "replace"):
                 self.setup.add_algorithms(self.algs[i])
             elif op == "run":
                 self.setup.run_by_name(f"a{i}")
@@ -199,7 +213,9 @@ class History:
             exc = e
         # ------------- model
         expect_exc = False
-        if op == "add":
+        if op == "replace":
+            st[i].update(added=True, ran=False, mpe=False)
+        elif op == "add":
             if st[i]["added"]:
                 ctx.state("algorithm re-added")
             st[i]["added"] = True
@@ -333,6 +349,51 @@ def run_sampled(ctx, case, ms):
         ctx.sample({"entry": tag, "pool": pool, "history": h.hist})
 
 
+def run_replaced(ctx, case):
+    rng = gen.rng_of(case)
+    ms = case["ms"]
+    names = ["FDD_MS", "EFDD_MS", "SSIcov_MS", "SSIdat_MS", "pLSCF_MS"] if ms else ["FDD", "EFDD", "FSDD", "SSIcov", "SSIdat", "pLSCF"]
+    pool = [str(x) for x in rng.permutation(names)[:2]]
+    h = History(ctx, pool, ms, "step@history(algorithm replaced under its name)")
+    plan = [("add", 0), ("add", 1), ("run", 0)] + ([("mpe", 0)] if rng.random() < 0.5 else []) + [("replace", 0)]
+    plan += [[("mpe", 0), ("run", 0), ("mpe", 0)], [("run", 0), ("mpe", 0)], [("run_all", -1), ("mpe", 0)], [("run", 1), ("mpe", 0), ("run_all", -1)]][case["k"] // 2 % 4]
+    for op, i in plan:
+        if not h.step(op, i):
+            break
+    h.round_trip()
+    ctx.nontrivial(("replaced", ms, str(h.hist)))
+    if case["k"] < 7002:
+        ctx.sample({"entry": h.tag, "pool": pool, "history": h.hist})
+
+
+def run_file_names(ctx, case):
+    """several setups saved side by side: every file name is its own file (names a user gives: setup_k / setup_l, run_p / run_k, deck.1 / deck.2)."""
+    from pyoma2.functions import gen as G_
+    rng = gen.rng_of(case)
+    stems = [["setup_k", "setup_l", "setup_p", "setup_"], ["ssk", "ssl", "ss"], ["run_p.pkl", "run_k.pkl", "run_l.pkl", "run_.pkl"], ["deck.pkl", "deckl.pkl", "deckp.pkl"],
+             ["a.pkl", "b.pkl"], ["span1.pkl", "span2.pkl", "span1..pkl"]][case["k"] % 6]
+    kinds = ["FDD", "SSIcov", "FDD@cor", "pLSCF"]
+    saved = []
+    with tempfile.TemporaryDirectory() as td:
+        for j, stem in enumerate(stems):
+            h = History(ctx, [kinds[j % len(kinds)]], False, "step@history(saved side by side)")
+            h.step("add", 0)
+            h.step("run", 0)
+            if j % 2:
+                h.step("mpe", 0)
+            path = os.path.join(td, stem)
+            G_.save_to_file(h.setup, path)
+            saved.append((stem, path, h))
+        for stem, path, h in saved:
+            ctx.ev("pickle-round-trip(several files)")
+            s2 = G_.load_from_file(path)
+            a, b = h.algs[0], (s2.algorithms.get("a0") if hasattr(s2, "algorithms") else None)
+            ok = b is not None and type(a) is type(b) and probes.digest(a.result) == probes.digest(b.result) and probes.digest(a.run_params) == probes.digest(b.run_params)
+            ctx.check(ok, "persistence:file_holds_another_setup", lambda: f"setups saved as {stems}: load_from_file({stem!r}) does not return the setup saved under that name")
+    ctx.state("several setups saved under similar file names")
+    ctx.nontrivial(("file_names", tuple(stems)))
+
+
 # ---------------------------------------------------------------------------------------- PoSER constructor
 TEMPLATES = [[], ["A"], ["B"], ["A", "B"], ["B", "A"], ["A", "A"], ["A", "B", "C"]]
 KINDS = {"A": "EFDD", "B": "FSDD", "C": "SSIcov"}  # FSDD is a subclass of EFDD: exact types are required
@@ -456,5 +517,9 @@ def run_case(ctx, case):
         run_sampled(ctx, case, False)
     elif c == "sampled_preger":
         run_sampled(ctx, case, True)
+    elif c == "replaced":
+        run_replaced(ctx, case)
+    elif c == "file_names":
+        run_file_names(ctx, case)
     else:
         run_poser(ctx, case)
